@@ -38,6 +38,16 @@ int walk_from(int *base, int start, int n) {
 void reset(ring *c, unsigned char *buf, size_t size) {
     *c = (ring) { .data = buf, .datasize = size, .head = 0u, .tail = size };
 }
+struct tapctx { int *src; size_t count; };
+struct chan { int (*run)(void *, void *, size_t); void *driver; };
+int pump(struct chan *c, int *out);
+int tapped(int *src, int *out) {
+    struct tapctx t = { .src = src, .count = 0u };
+    struct chan c = { .run = 0, .driver = &t };
+    int rc = pump(&c, out);
+    if (rc < 0 && t.count > 0u) return 1;
+    return 0;
+}
 bool storable(double x) { return (x == 0.) || (isnormal(x) != 0); }
 bool f32_ok(float v) { return storable(v); }
 bool f64_ok(double v) { return storable(v); }
@@ -85,7 +95,12 @@ def run():
             if p.ret is not None and p.ret != sym.C(0):
                 acc |= fclass.classes_of_path(p.cond_terms(), ('v', 'v'), bits)
         assert acc == want, (fn, acc)
-    return 6
+    # 7. a local whose address the caller stored inside an object it hands to a callee may be written by that callee
+    rets = sorted(fmt(p.ret) for p in eng.paths('tapped') if p.end == 'return')
+    assert rets == ['0', '0', '1'], 'tapped: the branch on t.count after pump(&c) must stay open, got %s' % rets
+    ev = [e for p in eng.paths('tapped') for e in p.calls('pump')][0]
+    assert dict(ev.pointees[('v', 't')][2])['count'] == sym.C(0), ev.pointees
+    return 7
 
 
 if __name__ == '__main__':
